@@ -250,6 +250,7 @@ def run(tier, seed, argv):
     rep.bounds = dict(tiling_shapes=len(shapes), tiling_limits=limits, merge_arithmetic="order 0..4, dims and threshold symbolic integers 1..64", invariance_configs=len(ij))
     rep.assumptions = ["tiling: shapes/limits enumerated, element labels concrete, on the stand-in's exact view semantics (validated against torch in setup; replay on real torch)",
                        "maximality of the fusion is not required (the property does not state it)", "invariance: as C01 (real arithmetic, recording stubs)"]
+    rep.validate_standin(6 if tier == "quick" else 24)
     rep.absorb("merge-arithmetic", par.run_jobs(mj, chunk=16))
     rep.absorb("invariance", par.run_jobs(ij, chunk=6))
     tw = par.run_jobs([dict(id="twin0", module="checks.c05", factory="make_merge", cfg=dict(order=3, twin="overfuse"))])
